@@ -58,6 +58,8 @@ def cases(tier, seed):
     if cur:
         yield f"C02|{cur_f}|{idx:04d}|{cur[0][1]}..", {"specs": cur, "tier": tier}
     for i, seq in enumerate(C.mixing_sequences()):
+        if seq[0][0] == "bch":
+            seq = seq[:3]          # Berlekamp-Massey costs ~2 ms per word: A, B, B' are enough to expose state shared between decoder instances
         yield f"C02|mixing|{i:02d}|{seq[0][0]}", {"specs": seq, "tier": tier}
 
 
@@ -173,7 +175,8 @@ def check(spec, tier, res):
         # ---------- <= t clause
         if t_adv is not None and t_adv >= 0:
             n_pat = sum(1 for _ in gf2.patterns_upto(n, t_adv)) if n <= 31 and t_adv <= 3 else 10 ** 9
-            exhaustive = len(msgs) == (1 << k) and (1 << k) * n_pat <= (20000 if q else 200000)
+            lim = (20000 if q else 200000) if dname not in ("bm", "reed") else (5000 if q else 60000)      # BM / Reed loop in Python (2-10 ms per word)
+            exhaustive = len(msgs) == (1 << k) and (1 << k) * n_pat <= lim
             if exhaustive:
                 cw_sel = msgs
             else:
